@@ -498,10 +498,16 @@ func c12r4(c *core.Ctx) {
 			return
 		}
 		// a float that comes from a conversion call of a peer value
-		var src *ssa.Call
+		var src ssa.Value
 		for _, s := range core.Sources(mi.X) {
 			if call, ok := s.(*ssa.Call); ok && call.Call.StaticCallee() != nil && !core.InModule(call.Call.StaticCallee()) {
 				src = call
+			}
+			// one result of a multi-valued conversion ( f, err := strconv.ParseFloat(s, 64) )
+			if ex, ok := s.(*ssa.Extract); ok {
+				if call, ok := ex.Tuple.(*ssa.Call); ok && call.Call.StaticCallee() != nil && !core.InModule(call.Call.StaticCallee()) {
+					src = ex
+				}
 			}
 		}
 		if src == nil {
@@ -510,11 +516,11 @@ func c12r4(c *core.Ctx) {
 		n++
 		notNaN := core.FalseFact(func(v ssa.Value) bool {
 			call, ok := v.(*ssa.Call)
-			return ok && core.IsCall(call, "math.IsNaN") && call.Call.Args[0] == ssa.Value(src)
+			return ok && core.IsCall(call, "math.IsNaN") && call.Call.Args[0] == src
 		})
 		notInf := core.FalseFact(func(v ssa.Value) bool {
 			call, ok := v.(*ssa.Call)
-			if !ok || !core.IsCall(call, "math.IsInf") || call.Call.Args[0] != ssa.Value(src) {
+			if !ok || !core.IsCall(call, "math.IsInf") || call.Call.Args[0] != src {
 				return false
 			}
 			s, isK := core.ConstInt(call.Call.Args[1])
